@@ -128,7 +128,7 @@ def str_pred(pi, s):
     return not STR_CHECKERS[pred].check_loc_stack(None, LocStack(TypeHintLoc(type=str)))
 
 # ---- documented identities on real stacks
-LOCS = (("t", "int"), ("t", "C"), ("t", "D"), ("t", "Impl"), ("f", "n", "int"), ("f", "m", "C"), ("f", "n", "D"), ("g", 0, "int"), ("g", 1, "C"))
+LOCS = (("t", "int"), ("t", "C"), ("t", "D"), ("t", "Impl"), ("f", "n", "int"), ("f", "m", "C"), ("f", "n", "D"), ("g", 0, "int"), ("g", 1, "C"), ("f", "_n", "int"), ("f", "n_", "C"))
 def mk_loc(i):
     d = LOCS[i]
     if d[0] == "t": return TypeHintLoc(type=TYPES[d[1]])
@@ -152,6 +152,12 @@ IDENT = [
     ("P[C, 'n'] == P[C] | P.n", lambda: P[C, "n"], lambda: P[C] | P.n),
     ("P[int].n + P[D] == P[int].n[D]", lambda: P[int].n + P[D], lambda: P[int].n[D]),
     ("P.n[D] == P['n'][D]", lambda: P.n[D], lambda: P["n"][D]),
+    # field ids that are private / mangled-looking / keyword-like names are names like any other
+    ("P._n == P['_n']", lambda: P._n, lambda: P["_n"]),
+    ("P[C]._n == P[C] + P['_n']", lambda: P[C]._n, lambda: P[C] + P["_n"]),
+    ("P.n_ == P['n_']", lambda: P.n_, lambda: P["n_"]),
+    ("P._n.m == P['_n']['m']", lambda: P._n.m, lambda: P["_n"]["m"]),
+    ("P[C, '_n'] == P[C] | P._n", lambda: P[C, "_n"], lambda: P[C] | P._n),
 ]
 IDENT_BUILT = [(nm, a(), b()) for nm, a, b in IDENT]
 # pattern OBJECTS that were already used (checker built, evaluated, given to a provider, operand of | & ^ ~) and are extended afterwards
@@ -340,12 +346,12 @@ def nat_identities():
             ev += 1
             if not chk_identities(n, l[0], l[1], l[2]): bad.append({"n": str(n), "l0": str(l[0]), "l1": str(l[1]), "l2": str(l[2])})
     return {"status": "REFUTED" if bad else "CONFIRMED", "cexs": bad[:5], "evaluations": ev,
-            "note": "labelled enumeration: documented identities on every stack of depth <= 3 over 9 locations"}
+            "note": "labelled enumeration: documented identities on every stack of depth <= 3 over 11 locations"}
 
 def chk_identities(n, l0, l1, l2):
     return identities(n, l0, l1, l2)
 ''', timeout=300, family="documented identities and chain semantics on real location stacks (labelled enumeration)",
-          bounds="all stacks of depth <= 3 over 9 locations (type / field / generic-parameter locations); 10 identities; 16 extensions of pattern objects that were already built and used")
+          bounds="all stacks of depth <= 3 over 11 locations (type / field / generic-parameter locations); 15 identities (incl. private and trailing-underscore field ids); 16 extensions of pattern objects that were already built and used")
     m.nat("type_matrix", NAT, timeout=120, family="class predicates (labelled enumeration)",
           bounds="27 type predicates x 29 location types (incl. generic abstract classes and generic runtime protocols, bare and parametrised) x 2 stack shapes, plus negation")
     me = Module("c10_e2e").pre(SETUP).pre(E2E)
